@@ -180,7 +180,10 @@ def run_py(case):
 def strat_ms(tier):
     return st.fixed_dictionaries({
         "o": gen.optics(),
-        "s": gen.sphere_dimless(0.05, 16.0, mlo=0.6, mhi=2.2),
+        # log-uniform sizes, and a share of dense or hollow spheres of x = 6..25 (where single multipoles can be dark - a
+        # coefficient crossing zero - well below the order at which the series has converged; x up to nod - 4 x^(1/3))
+        "s": st.one_of(gen.sphere_dimless(0.05, 16.0, mlo=0.6, mhi=2.2), gen.sphere_dimless(0.05, 16.0, mlo=0.6, mhi=2.2),
+                       st.fixed_dictionaries({"x": st.floats(6.0, 21.0), "m": st.tuples(st.one_of(st.floats(1.6, 2.6), st.floats(0.6, 0.8)), st.just(0.0)).map(list)})),
         "det": gen.point_detector(6),
         "pl": st.fixed_dictionaries({"fx": gen.rounded(-0.3, 1.3, 4), "fy": gen.rounded(-0.3, 1.3, 4),
                                      "kgap": gen.logu(0.5, 1e3)}),
@@ -211,7 +214,12 @@ def run_ms(case):
     k = gen.wavevec(o)
     unit = o["wl"] / o["nm"]
     radius = s["x"] / k
-    center = gen.place(case["pl"], case["det"], unit, radius, k)
+    pl_ = case["pl"]
+    if s["x"] >= 6.0 and not 0.8 < s["m"][0] < 1.6 and pl_["kgap"] < 40.0:
+        # dense and hollow spheres of this size are looked at from k*gap >= 40: next to the surface the orders that the
+        # extinction-based stopping rule drops weigh more than in the far field, which D does not model
+        pl_ = dict(pl_, kgap=40.0 + pl_["kgap"])
+    center = gen.place(pl_, case["det"], unit, radius, k)
     det = gen.build_detector(case["det"], unit)
     sph = gen.make_sphere(s, o, center)
     kw = dict(qeps1=1e-9, qeps2=1e-12) if case["tight"] else {}
@@ -231,8 +239,8 @@ def run_ms(case):
     _, bv = gen.flatten(b)
     pts_ = gen.detector_points_xyz(case["det"], unit)
     krmin = k * np.sqrt(((pts_ - np.array(center)) ** 2).sum(1)).min()
-    # SCSMFO's documented stopping rule for the single-sphere expansion: stop at the first order whose
-    # Q_ext term is relatively below qeps1.  D = share of Q_ext carried by the orders that rule drops
+    # SCSMFO's stopping rule for the single-sphere expansion: orders whose Q_ext term is relatively below qeps1
+    # are dropped from the end of the series.  D = share of Q_ext carried by the orders that rule drops
     # (evaluated with the reference coefficients); a narrow resonance beyond the stopping order makes
     # D large and the default-option result is then only as accurate as the documented rule allows.
     a_, b_ = refmie.mie_ab(complex(*s["m"]), s["x"])
@@ -241,11 +249,14 @@ def run_ms(case):
     cs = np.cumsum(tn)
     q1 = 1e-9 if case["tight"] else 1e-5
     nmaxs = min(int(round(s["x"] + 4 * s["x"] ** (1 / 3))) + 5, LIMITS["nod"])
-    ns = nmaxs
+    # the series is cut one order after its last significant term (an isolated small term below that - a multipole
+    # that happens to be dark at this size - is not the tail; until repo commit "Multisphere cuts the single-sphere
+    # series after its last significant term" the first small term ended it, with errors of up to 50 %)
+    ns = 1
     for i in range(min(nmaxs, len(tn))):
-        if abs(tn[i]) / abs(cs[i]) < q1:
+        if abs(tn[i]) / abs(cs[i]) >= q1:
             ns = i + 1
-            break
+    ns = min(ns + 1, nmaxs)
     D = float(np.abs(tn[ns:]).sum() / abs(cs[-1]))
     # truncation errors are relative to the un-cancelled series magnitude, not to the (possibly tiny)
     # large-angle field at the sampled points
